@@ -16,10 +16,11 @@ bool ops_archive(Ctx& c, const json& s, int idx, bool& handled) {
 		for (std::size_t i = 0; i < L.size(); ++i) { if (c.vol->GetName(i) != Scen::str(L[i]["name"])) { Proto::mismatch(site, "name", where("member " + std::to_string(i) + " is " + c.vol->GetName(i))); return false; }
 			if (c.vol->GetSize(i) != L[i]["size"].get<uint32_t>()) { Proto::mismatch(site, "size", where("member " + std::to_string(i))); return false; }
 			if ((int)c.vol->GetCompressionCode(i) != L[i]["kind"].get<int>()) { Proto::mismatch(site, "kind", where("member " + std::to_string(i))); return false; } }
+		if (s.contains("fileLen") && c.vol->GetArchiveFileSize() != s["fileLen"].get<uint64_t>()) { Proto::mismatch(site, "archive-size", where(std::to_string(c.vol->GetArchiveFileSize()))); return false; }
 		return true; }
 	if (op == "vol_index") { const std::string n = Scen::str(s["name"]); long want = s["expect"]; long got = 9999; bool contains = c.arch()->Contains(n); try { got = (long)c.arch()->GetIndex(n); } catch (const std::exception&) { got = 9999; }
 		if (got != want) { Proto::mismatch(site, "value", where(n + " -> " + std::to_string(got) + " want " + std::to_string(want))); return false; } if (contains != (want != 9999)) { Proto::mismatch(site, "contains-disagrees", where(n)); return false; } return true; }
-	if (op == "vol_stream") { std::vector<unsigned char> got; bool err = throws([&] { auto r = c.arch()->OpenStream(s["i"].get<std::size_t>()); if (r->Length() != r->Length() || r->Position() != 0) throw std::logic_error("pos"); got = drain(*r); });
+	if (op == "vol_stream") { std::vector<unsigned char> got; bool err = throws([&] { auto r = s.contains("name") ? c.arch()->OpenStream(Scen::str(s["name"])) : c.arch()->OpenStream(s["i"].get<std::size_t>()); if (r->Length() != r->Length() || r->Position() != 0) throw std::logic_error("pos"); got = drain(*r); });
 		bool want = s["expect"] == "err"; if (err != want) { Proto::mismatch(site, err ? "refused-should-accept" : "accepted-should-refuse", where("")); return false; }
 		if (!err) { auto w = Scen::expand(s["segs"]); if (got != w) { Proto::mismatch(site, "bytes", where(Scen::hexdiff(got, w))); return false; } } return true; }
 	if (op == "vol_extract" || op == "vol_extract_name") { std::string dest = P(s["dest"]); fs::create_directories(fs::path(dest).parent_path());
@@ -73,7 +74,7 @@ bool ops_archive(Ctx& c, const json& s, int idx, bool& handled) {
 		const std::string out = ROOT + "/out.bin"; const std::vector<unsigned char> pre{9, 8, 7}; Scen::spit(out, pre);
 		std::cout.flush(); pid_t pid = fork();
 		if (pid == 0) { alarm(wantRefuse ? 20 : 600); struct rlimit rl; rl.rlim_cur = rl.rlim_max = wantRefuse ? (64ull << 20) : RLIM_INFINITY; setrlimit(RLIMIT_FSIZE, &rl); signal(SIGXFSZ, SIG_DFL); signal(SIGALRM, SIG_DFL);
-			try { if (vol) Archive::VolFile::CreateArchive(out, in); else Archive::ClmFile::CreateArchive(out, in); } catch (const std::exception&) { _exit(10); } _exit(11); }
+			try { if (vol) Archive::VolFile::CreateArchive(out, in); else Archive::ClmFile::CreateArchive(out, in); } catch (const std::exception&) { flush_profile(); _exit(10); } flush_profile(); _exit(11); }
 		int st = 0; waitpid(pid, &st, 0); bool refused = WIFEXITED(st) && WEXITSTATUS(st) == 10, accepted = WIFEXITED(st) && WEXITSTATUS(st) == 11;
 		bool cut = WIFSIGNALED(st) && (WTERMSIG(st) == SIGXFSZ || WTERMSIG(st) == SIGALRM);
 		auto cleanup = [&] { for (auto& p : in) fs::remove(p); fs::remove(out); };
